@@ -33,6 +33,8 @@ fn configs(tier: &str) -> Vec<Cfg> {
         one("string maxLength=3", "string", vec![("maxLength", "3")], vec!["abc", "\u{e9}\u{20ac}x"], vec![("abcd", "maxLength")]),
         one("string minLength=2", "string", vec![("minLength", "2")], vec!["ab"], vec![("a", "minLength")]),
         one("string length=2", "string", vec![("length", "2")], vec!["ab"], vec![("abc", "length"), ("a", "length")]),
+        one("string maxLength=0", "string", vec![("maxLength", "0")], vec![""], vec![("a", "maxLength")]),
+        one("string length=0", "string", vec![("length", "0")], vec![""], vec![("x", "length")]),
         one("string enumeration", "string", vec![("enumeration", "red"), ("enumeration", "green")], vec!["red", "green"], vec![("blue", "enumeration")]),
         one("int minInclusive=1", "int", vec![("minInclusive", "1")], vec!["1"], vec![("0", "minInclusive")]),
         one("int maxInclusive=10", "int", vec![("maxInclusive", "10")], vec!["10"], vec![("11", "maxInclusive")]),
@@ -61,7 +63,7 @@ fn configs(tier: &str) -> Vec<Cfg> {
     v
 }
 
-const POSITIONS: [(&str, &str); 11] = [
+const POSITIONS: [(&str, &str); 12] = [
     ("Op::Direct", "body-direct"),
     ("Op::Opt", "body-optional"),
     ("Op::Many#0", "body-repeated-first"),
@@ -73,6 +75,7 @@ const POSITIONS: [(&str, &str); 11] = [
     ("Hdr::Token", "header"),
     ("Op::Coded", "body-ref-to-global-element"),
     ("Op::PickA", "body-choice-branch"),
+    ("Op::direct", "body-attribute-named-like-an-element"),
 ];
 
 fn build(cfg: &Cfg) -> SchemaSet {
@@ -121,7 +124,7 @@ fn build(cfg: &Cfg) -> SchemaSet {
                 Particle::Ref(ElemRef { target: QName::new(NS_W, "Coded"), min: 0, max: Max::N(1), xmlns: vec![] }),
                 Particle::Choice(vec![el("PickA", r.clone()), el("PickB", TypeRef::b("string"))]),
             ])),
-            attrs: vec![Attr { name: "attr".into(), ty: r.clone(), required: false, value_constraint: None }],
+            attrs: vec![Attr { name: "attr".into(), ty: r.clone(), required: false, value_constraint: None }, Attr { name: "direct".into(), ty: r.clone(), required: false, value_constraint: None }],
         },
     }));
     w.schema.comps.push(typed_element("Coded", r.clone()));
@@ -325,7 +328,7 @@ pub fn check(tier: &str) -> i32 {
     rep.set("verdicts_judged", json!(verdicts));
     rep.set("transmissions_judged", json!(transmissions));
     rep.set("exhaustive", json!(true));
-    rep.set("bound", json!("facet configurations (each facet kind on string/int/long, two pairs, derivation chains of depth 2 and 3, one of them with its first level in an imported schema file of another namespace) x 11 positions of the restricted value (direct, optional, first/second item of a repeated member, nested 1 and 2 levels, attribute, member inherited through a complex extension, header part, a ref= to a global element of the restricted type, a choice branch) x placements: all-valid (each boundary value), every single position x every violating value, pairs (thorough: all; quick: neighbouring), one triple; transmission half for all-valid and single placements"));
+    rep.set("bound", json!("facet configurations (each facet kind on string/int/long, two pairs, derivation chains of depth 2 and 3, one of them with its first level in an imported schema file of another namespace) x 12 positions of the restricted value (direct, optional, first/second item of a repeated member, nested 1 and 2 levels, attribute, member inherited through a complex extension, header part, a ref= to a global element of the restricted type, a choice branch, an attribute whose name differs from an element's in case only) x placements: all-valid (each boundary value), every single position x every violating value, pairs (thorough: all; quick: neighbouring), one triple; transmission half for all-valid and single placements"));
     rep.set("batch", json!({"packages": res.packages, "cache_hits": res.cache_hits, "build_s": res.build_secs, "run_s": res.run_secs}));
     rep.assume("the restriction-check trait and method are discovered through an impl in the emitted file");
     rep.finish()
